@@ -333,6 +333,14 @@ func (r *sceneRun) renderOn(fresh bool) string {
 		for n := 0; n < cycles; n++ {
 			p.EndMachineCycle()
 		}
+		return r.grab()
+	})
+}
+
+// grab maps the emitted frame back to shade indices
+func (r *sceneRun) grab() string {
+	{
+		p := r.p
 		fr := p.Frame()
 		out := make([]uint8, 160*144)
 		h := uint32(0)
@@ -345,7 +353,7 @@ func (r *sceneRun) renderOn(fresh bool) string {
 		}
 		r.frame = out
 		return fmt.Sprintf("ok ; %08x", h)
-	})
+	}
 }
 
 func packLine(px []uint8) string {
@@ -408,6 +416,26 @@ func (r *sceneRun) do(op string) string {
 		}
 	case len(w) == 1 && w[0] == "render":
 		out = r.render()
+		if out == "crash" {
+			r.p = nil
+		}
+	case len(w) == 2 && w[0] == "offon":
+		// the LCD of the running PPU is switched off k cycles into the frame and on again at once; the FIRST frame after
+		// the restart must already be the complete and exact picture of the (constant) scene
+		out = guard(func() string {
+			if r.p == nil || r.s.regs[0]&0x80 == 0 {
+				return "none"
+			}
+			for n := atoi(w[1]); n > 0; n-- {
+				r.p.EndMachineCycle()
+			}
+			r.p.WriteLCDC(r.s.regs[0] & 0x7f)
+			r.p.WriteLCDC(r.s.regs[0])
+			for n := 0; n < 17554; n++ { // the FIRST frame after the restart (2 cycles shorter)
+				r.p.EndMachineCycle()
+			}
+			return r.grab()
+		})
 		if out == "crash" {
 			r.p = nil
 		}
@@ -671,6 +699,23 @@ func sceneGen(c *ctx) {
 		r.do("render")
 		lines(fmt.Sprintf("alias/%d", lcdc&0x10))
 	}
+	// Part 5: the LCD switched off in the middle of a frame (after window lines were drawn) and on again
+	nOffOn := 8
+	if c.thorough() {
+		nOffOn = 200
+	}
+	for k := 0; k < nOffOn; k++ {
+		r.do("reset")
+		r.do(fmt.Sprintf("scene %08x 00", uint32(c.rng.next())))
+		g := r.s.regs
+		lcdc := int(g[0]) | 0x20 // window on
+		wx, wy := 7+c.rng.intn(120), c.rng.intn(80)
+		r.do(fmt.Sprintf("regs %02x %02x %02x %02x %02x %02x %02x %02x", lcdc, g[1], g[2], wx, wy, g[5], g[6], g[7]))
+		r.do("render")
+		r.do(fmt.Sprintf("offon %d", 114*(wy+1+c.rng.intn(143-wy))+c.rng.intn(114)))
+		lines("offon")
+	}
+	c.notes["lcd_off_on_cases"] = nOffOn
 	c.notes["tile_coincidence_cases"] = nAlias
 	c.notes["scenes_in_property_flags"] = inProp
 	c.notes["scenes_out_of_property_flags"] = outProp
